@@ -4,7 +4,7 @@
   announced info area, declared length ≥ 1 unit, inside the storage, zero-sum over the declared
   span (`device_accept_area_span`).  Core only.
 -/
-import PyIpmi.Lemmas.FruAlterImage
+import PyIpmi.Lemmas.FruLengthByte
 import PyIpmi.Model.FruDevice
 namespace PyIpmi.Fru
 open PyIpmi PyIpmi.Gen
@@ -57,7 +57,7 @@ theorem devArea_encode {α : Type} (v : Variant) (kind : AreaKind)
     simp only [InfoArea.okFor, Bool.and_eq_true, List.all_eq_true] at hok'
     obtain ⟨f1, f2, f3⟩ := hfit a rfl
     have := parseArea_encode v .bytes kind (toArea a) [] (b2 a) (minutes a) (hwf a rfl) hok'.1 hok'.2 f1
-      (f2 []) (f3 [])
+      f2 f3
     rwa [List.append_nil] at this
 
 theorem devMrLen_encode (rs : List Record) (hne : rs ≠ []) (store rest : List Nat) (fuel off count : Nat)
@@ -171,7 +171,8 @@ theorem parse_encode_device_gen (v : Variant) (img : FruImage) (tail : List Nat)
       (img.header ++ img.parts.iu ++ img.parts.ch ++ img.parts.bd ++ img.parts.pr) tail
       (by simp [hHl]; omega)
     simpa [encodeFru, FruImage.mrOff, FruImage.parts, hHl, List.append_assoc, Nat.add_assoc] using this
-  simp only [sc, sb, sp, sm, Outcome.bind_ok, view]
+  simp only [sc, sb, sp, sm, Outcome.bind_ok, view, layout_encode img]
+  simp
 
 /-! ### acceptance on the device path -/
 
@@ -247,5 +248,134 @@ theorem device_accept_area_span (v : Variant) (hv : v.devLenLax = false) (store 
     exact devArea_ok v hv _ _ _ (by omega) _ hb
   · rw [o4, Nat.mul_comm] at hpr
     exact devArea_ok v hv _ _ _ (by omega) _ hpr
+
+/-! ### fields confined and areas disjoint on the device path -/
+
+/-- what `_read_fru_area` hands to the area class -/
+theorem devArea_parse (v : Variant) (hv : v.devLenLax = false) (kind : AreaKind) (store : List Nat)
+    (off : Nat) (hoff : off ≠ 0) (s : Slot AreaView) (h : devArea v kind store off = .ok s) :
+    store.getD (off + 1) 0 * 8 ≠ 0 ∧ off + store.getD (off + 1) 0 * 8 ≤ store.length ∧
+    parseArea v .bytes kind ((store.drop off).take (store.getD (off + 1) 0 * 8)) = .ok s := by
+  unfold devArea at h
+  rw [if_neg hoff] at h
+  obtain ⟨d5, h5, h⟩ := ok_of_bind h
+  obtain ⟨hl5, e5⟩ := devRead_ok _ _ _ _ (by decide) h5
+  have hL : d5.getD 1 0 = store.getD (off + 1) 0 := by
+    rw [e5]
+    simp [List.getD_eq_getElem?_getD, List.getElem?_drop]
+  rw [hL] at h
+  split at h
+  · cases h
+  · rename_i hz
+    have hnz : store.getD (off + 1) 0 * 8 ≠ 0 := by
+      intro h0
+      apply hz
+      rw [hv, h0]; rfl
+    obtain ⟨d, hd, h⟩ := ok_of_bind h
+    obtain ⟨hl, ed⟩ := devRead_ok _ _ _ _ hnz hd
+    rw [ed] at h
+    exact ⟨hnz, hl, h⟩
+
+theorem fieldsInside_take (k : Nat) (X : List Nat) (L : Nat) (hL : X.getD 1 0 = L) (h2 : 2 ≤ L * 8)
+    (h : fieldsInside k (X.take (L * 8)) = true) : fieldsInside k X = true := by
+  have h1 : (X.take (L * 8)).getD 1 0 = L := by rw [getD_take _ _ _ (by omega), hL]
+  cases X with
+  | nil => rfl
+  | cons x t =>
+    have hne : (x :: t).take (L * 8) ≠ [] := by
+      intro he
+      have := congrArg List.length he
+      simp at this; omega
+    cases hd : (x :: t).take (L * 8) with
+    | nil => exact absurd hd hne
+    | cons y u =>
+      rw [hd] at h h1
+      simp only [fieldsInside, fieldBytes, h1] at h
+      simp only [fieldsInside, fieldBytes, hL]
+      rw [← hd, List.take_take, Nat.mul_comm 8 L, Nat.min_eq_left (by omega)] at h
+      rw [Nat.mul_comm 8 L]
+      exact h
+
+/-- `Ipmi.get_fru_inventory()` with `_read_fru_area` validating the length byte, the fields confined
+and the layout checked: whatever the device stores, for every info area the header announces (byte
+`k`: 2 chassis, 3 board, 4 product) the fields and the C1h marker lie inside the declared length and
+no other area starts inside its span. -/
+theorem device_accept_area_ok (v : Variant) (hv1 : v.devLenLax = false) (hv2 : v.fieldsLax = false)
+    (hv3 : v.devOverlapLax = false) (store : List Nat)
+    (fv : FruView) (k : Nat) (hk : k = 2 ∨ k = 3 ∨ k = 4) (hoff : store.getD k 0 ≠ 0)
+    (hp : parseFruDevice v store = .ok fv) :
+    fieldsInside k (areaAt store k) = true ∧
+    ∀ j ∈ [1, 2, 3, 4, 5], j ≠ k → startOf store j ≠ 0 → startOf store k ≤ startOf store j →
+      startOf store k + 8 * store.getD (8 * store.getD k 0 + 1) 0 ≤ startOf store j := by
+  unfold parseFruDevice at hp
+  obtain ⟨h8, hr, hp⟩ := ok_of_bind hp
+  obtain ⟨hl8, e8⟩ := devRead_ok _ _ _ _ (by decide) hr
+  obtain ⟨hd, hhd, hp⟩ := ok_of_bind hp
+  obtain ⟨c, hc, hp⟩ := ok_of_bind hp
+  obtain ⟨b, hb, hp⟩ := ok_of_bind hp
+  obtain ⟨p, hpr, hp⟩ := ok_of_bind hp
+  obtain ⟨m, hm, hp⟩ := ok_of_bind hp
+  have hclash : layoutClash hd c b p m = false := by
+    split at hp
+    · cases hp
+    · rename_i hn; simpa [hv3] using hn
+  have ho := parseHeader_offs _ _ hhd
+  have hst : ∀ i ∈ [1, 2, 3, 4, 5], hdrStart hd i = startOf store i := by
+    intro i hi
+    rw [ho i hi, e8, List.drop_zero, getD_take]
+    · rfl
+    · simp only [List.mem_cons, List.mem_nil_iff, or_false] at hi; omega
+  have H := (layoutClash_eq_false hd c b p m).mp hclash
+  -- one announced info area: its slot, parsed from exactly its declared bytes
+  have key : ∀ (kind : AreaKind) (s : Slot AreaView), kind.idx = k →
+      devArea v kind store (hdrStart hd k) = .ok s → slotLens c b p m k = areaLen s →
+      fieldsInside k (areaAt store k) = true ∧
+      ∀ j ∈ [1, 2, 3, 4, 5], j ≠ k → startOf store j ≠ 0 → startOf store k ≤ startOf store j →
+        startOf store k + 8 * store.getD (8 * store.getD k 0 + 1) 0 ≤ startOf store j := by
+    intro kind s hidx hdev hlen
+    have hkm : k ∈ [1, 2, 3, 4, 5] := by rcases hk with h | h | h <;> simp [h]
+    have hsk := hst k hkm
+    rw [hsk] at hdev
+    have hne : startOf store k ≠ 0 := by simp only [startOf]; omega
+    obtain ⟨hnz, hin, hpa⟩ := devArea_parse v hv1 kind store _ hne s hdev
+    simp only [startOf] at hnz hin hpa
+    have hg1 : (store.drop (8 * store.getD k 0)).getD 1 0 = store.getD (8 * store.getD k 0 + 1) 0 := by
+      simp [List.getD_eq_getElem?_getD, List.getElem?_drop]
+    have hg1' : ((store.drop (8 * store.getD k 0)).take (store.getD (8 * store.getD k 0 + 1) 0 * 8)).getD 1 0 =
+        store.getD (8 * store.getD k 0 + 1) 0 := by
+      rw [getD_take _ _ _ (by omega), hg1]
+    constructor
+    · have hf := parseArea_fields' v hv2 .bytes kind _ (by rw [hg1']; exact hnz) s hpa
+      rw [hidx] at hf
+      exact fieldsInside_take k _ _ hg1 (by omega) hf
+    · intro j hj hjk hsj hle
+      have hl := parseArea_len v .bytes kind _ s hpa
+      rw [hg1'] at hl
+      have := H k hkm j hj (fun h => hjk h.symm)
+      rw [hst k hkm, hst j hj, hlen, hl] at this
+      exact this hne hsj hle
+  rcases hk with rfl | rfl | rfl
+  · exact key .chassis c rfl hc rfl
+  · exact key .board b rfl hb rfl
+  · exact key .product p rfl hpr rfl
+
+theorem device_accept_fields (v : Variant) (hv1 : v.devLenLax = false) (hv2 : v.fieldsLax = false)
+    (hv3 : v.devOverlapLax = false) (store : List Nat) (fv : FruView)
+    (hp : parseFruDevice v store = .ok fv) : fieldsOk store = true := by
+  have key : ∀ k, (k = 2 ∨ k = 3 ∨ k = 4) → (store.getD k 0 == 0 || fieldsInside k (areaAt store k)) = true := by
+    intro k hk
+    by_cases h0 : store.getD k 0 = 0
+    · rw [h0]; rfl
+    · simp only [Bool.or_eq_true]
+      right
+      exact (device_accept_area_ok v hv1 hv2 hv3 store fv k hk h0 hp).1
+  simp only [fieldsOk, Bool.and_eq_true]
+  exact ⟨⟨key 2 (Or.inl rfl), key 3 (Or.inr (Or.inl rfl))⟩, key 4 (Or.inr (Or.inr rfl))⟩
+
+theorem device_accept_spans_free (v : Variant) (hv1 : v.devLenLax = false) (hv2 : v.fieldsLax = false)
+    (hv3 : v.devOverlapLax = false) (store : List Nat) (fv : FruView)
+    (hp : parseFruDevice v store = .ok fv) : InfoSpansFree store := by
+  intro k hk hne
+  exact (device_accept_area_ok v hv1 hv2 hv3 store fv k hk hne hp).2
 
 end PyIpmi.Fru
